@@ -30,6 +30,17 @@ def _raising(k, p):
     return k == p
 
 
+def _raising_one(k, p):
+    """key_match, except that ONE pattern name makes the function raise (e.g. a name that is not a valid pattern of the
+    function's language): the other patterns must keep matching"""
+    if p == "bad(" and k != p:
+        raise ValueError("boom")
+    casbin = common.use_repo()
+    from casbin import util
+
+    return util.key_match(k, p)
+
+
 def match_fn(name):
     casbin = common.use_repo()
     from casbin import util
@@ -43,6 +54,7 @@ def match_fn(name):
         # only real `prefix*` patterns match: NOT reflexive on concrete names (a name does not match its own text)
         "prefix_star": lambda k, p: p.endswith("*") and k.startswith(p[:-1]),
         "raising": _raising,
+        "raising_one": _raising_one,
     }[name]
 
 
